@@ -138,7 +138,7 @@ fn main() {
             }
             match plan.random {
                 None => {
-                    let prefixes = if plan.shape == Shape::CapSpecial {
+                    let prefixes = if plan.shape == Shape::CapSpecial || plan.shape == Shape::Placement {
                         let nf = flavours_of(entry).len() as u32;
                         (0..nf).map(|f| vec![(f, nf)]).collect()
                     } else {
